@@ -126,6 +126,18 @@ reg("C07", "exploration",
     "DESIGN.md section 3, C07")
 
 
+reg("C15", "exploration",
+    "Differential generated-input search: each of the eleven PyWrapper operations and its raw counterpart run against identical "
+    "fresh reference agents over generated databases holding every value type (incl. conceptual tables with sparse and "
+    "mixed-type columns, SET responses that confirm other values than were sent, missing objects); the wrapper's result must "
+    "(a) consist only of str / int / bytes / timedelta / IPv4Address / None in lists, tuples, dicts and the documented "
+    "BulkResult record -- dictionary keys included (deep type walk) -- and (b) equal the harness's own element-wise "
+    "pythonisation of the raw result, including the exception class when the raw operation raises.",
+    "The pythonisation table is written in the check from RFC 2578 meanings, not taken from puresnmp; table()/bulktable() only on conceptual tables.",
+    "Hypothesis differential testing (wrapper vs raw client) with a deep type-walk oracle",
+    "DESIGN.md section 3, C15")
+
+
 def main():
     present = sorted(os.path.basename(p)[:3].upper()
                      for p in glob.glob(os.path.join(VERIF, "checks", "c[0-9][0-9]_*.py")))
